@@ -17,7 +17,7 @@ SESSION_TXT = ("TLC checks the context state machine Riti.tla (both methods, ses
 CHECKS = {
     "C01": dict(category=MC, design_ref="DESIGN.md 5 C01",
                 technique="TLC model checking of Riti.tla (in-contract language as a state machine) + replay of every generated history through the real engine under catch_unwind",
-                text=SESSION_TXT + "; a panic or a call over the time budget on any in-contract event is a violation. Recorded runs (impl -> spec, Trace_Session / Trace_Store with focus C01: dictionary-guided and random sessions over all 111 key codes, both methods, learning commits and restarts) add depth; a call that does not return within the watchdog budget is reported like a panic.",
+                text=SESSION_TXT + "; a panic or a call over the time budget on any in-contract event is a violation. Recorded runs (impl -> spec, Trace_Session / Trace_Store with focus C01: dictionary-guided and random sessions over all 111 key codes, both methods, learning commits and restarts) add depth; the recorder also presses every one of the 111 keys 40 times in a row after a short start (long compositions) in both methods; a call that does not return within the watchdog budget is reported like a panic, a fatal signal as a violation with site memory.",
                 note="bounded depth and class alphabets; replay contexts for the TLC histories run without the database; TLC, harness executor trusted"),
     "C02": dict(category=MC, design_ref="DESIGN.md 5 C02",
                 technique="TLC model checking of PropWellFormed on Riti.tla + replay with every returned suggestion fully read out (both accessors, every index)",
@@ -28,7 +28,7 @@ CHECKS = {
                 technique="TLC model checking of the memo model (MemoTransparent) over all edit paths + paired replay: warm/edited/interleaved context vs brand-new context",
                 text="TLC enumerates 300 target texts x earlier words x typed prefix x all edit paths (3 steps quick / 4 thorough) and checks on the memo model that the prefixes the "
                      "suffix path looks up are in the memo exactly as in a fresh context; ~100k (quick) histories are replayed as pairs on the real engine - a long-lived warm "
-                     "context with a second context interleaved vs a brand-new context typing the surviving text - and the complete renderings compared",
+                     "context vs a brand-new context typing the surviving text - and the complete renderings compared; a second context of the same process (same configuration, no database directory, or other options) types the same characters just BEFORE the main one, and the brand-new reference comes from an isolated process per configuration",
                 note="store and selection byte held fixed; fresh renderings cached per (configuration, text); bounded edit depth; TLC, harness executor trusted"),
     "C06": dict(category=MC, design_ref="DESIGN.md 5 C06",
                 technique="TLC model checking of PropFreshWhenIdle / flag invariants on Riti.tla + differential replay: at every terminating event a brand-new context is forked and compared on the whole continuation",
@@ -70,23 +70,24 @@ CHECKS = {
                 technique="TLC model checking of the environment/fault model MC_Fault + replay of every fault scenario with exhaustive concretisation of torn files (every byte prefix)",
                 text="TLC enumerates file states x directory states x event sequences (new, type, learning commit, crash in the middle of a save, restart, update) and checks the robustness "
                      "invariants; the harness replays every scenario with torn = every proper byte prefix of an engine-written store, wrong-shape and empty-entry corpora, missing / blocked "
-                     "directory: nothing may panic, unreadable = absent (differential on 6 probe words), failed save keeps the choice in memory, completed save leaves a loadable file",
+                     "directory: nothing may panic, unreadable = absent (differential on 6 probe words), failed save keeps the choice in memory, completed save leaves a loadable file; a second instance lets the environment replace / damage / delete the auto-correct file under a live context and demands that re-loading answers like a context created now (ReloadAsNew)",
                 note="root sandbox: unwritable directory simulated by a regular file at its path; complete sweeps once per environment and worker, samples afterwards"),
     "C11": dict(category=MC, design_ref="DESIGN.md 5 C11",
                 technique="TLC model checking of UpdatedEquivFresh on the memo/stamp model + paired replay: updated context vs context created fresh at the update point",
                 text="TLC enumerates typing / auto-correct-file edits / update-engine / typing histories over 4 (quick) or 7 (thorough) configurations, checks the invariant on "
                      "the model (it finds the stale-memo counterexample on the pinned transcript in 4 steps) and emits every maximal history; the harness replays each with "
-                     "explicit file mtimes against a brand-new context created with the new configuration over the same files; a second instance performs two updates in a row (incl. suggestions switched off and on again); MC_Session histories add updates in the middle of arbitrary event sequences",
-                note="edits = content change with newer mtime; bounded number of edits/words; TLC, harness executor trusted"),
+                     "explicit file mtimes against a brand-new context created with the new configuration over the same files; edits add / change / remove entries, make the file unparsable or delete it; a second instance performs two updates in a row (incl. suggestions switched off and on again); MC_Session histories add updates in the middle of arbitrary event sequences",
+                note="edits = content change, damage or deletion with newer mtime; bounded number of edits/words; TLC, harness executor trusted"),
     "C12": dict(category=MC, design_ref="DESIGN.md 5 C12",
                 technique="TLC bounded model checking of FixedCompose (PropKeySet) + replay of every TLC behaviour through the real engine",
                 text="TLC enumerates all key/backspace histories to depth 3 (quick) / 4 (thorough) over a class alphabet x 16 helper settings, checks the "
                      "transcript against the normative priority chain, and every emitted history is replayed in the real engine with the pre-edit text "
-                     "compared after each event; a second instance goes one step deeper over a small alphabet, and recorded random fixed-layout sessions over all key codes are validated by Trace_Session (focus C12); bounded-exhaustive over the stated alphabets, not a proof",
+                     "compared after each event; a second instance goes deeper over a small alphabet, a third sweeps EVERY member of every class the rules name (107 values incl. all 30 punctuation marks) to depth 2/3, and recorded random fixed-layout sessions over all key codes are validated by Trace_Session (focus C12); bounded-exhaustive over the stated alphabets, not a proof",
                 note="class representatives; edge characters on which riti's tables and the Unicode chart differ are non-normative; TLC, harness executor, rustc trusted"),
     "C13": dict(category=MC, design_ref="DESIGN.md 5 C13",
                 technique="TLC bounded model checking of ImplReph against PropRephSet (syllable grammar) + replay of every reph-ending history through the real engine",
-                text="TLC enumerates all histories to depth 5 (quick) / 6 (thorough; 38M states) over the 12 values the reph scan distinguishes x 8 settings, "
+                text="TLC enumerates all histories ending in the reph key to depth 6 (quick) / 7 (thorough) over the 12 values the reph scan distinguishes x 16 settings, and to depth 4 / 5 over a class sweep "
+                     "(all ten vowel signs, anusvara, visarga, khanda-ta, digit: 25 values), "
                      "checks conservation for every reachable text and exact placement for every text matching the syllable grammar; every history ending in "
                      "the reph key is replayed in the real engine and the pre-edit text compared after each event; the ranges include the old vowel-sign order (sign waiting / sign placed before the reph arrives)",
                 note="placement clause only for grammar-matching texts (statement: 'orthographically well-formed'); bounded depth; TLC, harness executor, rustc trusted"),
@@ -94,13 +95,13 @@ CHECKS = {
                 technique="TLC product-machine model checking (typewriter order/option on vs Unicode order/option off) + paired replay of every generated word in two real contexts",
                 text="TLC builds every word of <= 2 syllables from the syllable grammar (9 onsets quick / 16 thorough, all ten vowel signs, both second halves of AU, "
                      "chandrabindu, independent vowel, punctuation, digit) x 16 helper settings and checks OldOrderEquiv and the waiting-sign clauses on the transcript; "
-                     "each word is typed both ways into two real contexts and the texts compared after every syllable, plus the waiting-sign clauses on the real engine",
+                     "each word is typed both ways into two real contexts and the texts compared after every syllable, plus the waiting-sign clauses on the real engine (end of a word, start of a word, brand-new context)",
                 note="only grammar-generated words (behaviour on ill-formed key sequences is descriptive); bounded word length; TLC, harness executor trusted"),
     "C15": dict(category=MC, design_ref="DESIGN.md 5 C15",
                 technique="TLC trace validation of recorded fixed-layout lists against Candidates.tla (PropFixedList) with dictionary facts",
                 text="prefixes (up to 6/12 characters) of 1/97 (quick) or all (thorough) dictionary words, every Bengali emoji name and every emoticon are typed through the inverse of the "
                      "bundled layout, wrapped or not, under 6 option sets; TLC checks: first = composed text with curling (split decided by Split.tla), completions are dictionary words "
-                     "with the typed prefix, non-decreasing distance, at most nine, no repeats, raw key text last when English is on",
+                     "with the typed prefix, non-decreasing distance, at most nine, no repeats, raw key text last when English is on. MC_FixedList model-checks the list assembly (consecutive-only de-duplication, comparator, stable sort, cut) against the same clauses; the data facts it assumes are checked on the real dictionary (event dictfacts); every prefix of every duplicated dictionary entry is always typed",
                 note="dictionary facts and edit distance are oracle facts; cleaning = removing ASCII punctuation, danda, ZWNJ"),
     "C16": dict(category=MC, design_ref="DESIGN.md 5 C16",
                 technique="TLC trace validation (PropAnsi / FPropAnsi / Enc) of recorded lists in both methods + data-exhaustive encoding pass over dictionary.json",
@@ -124,8 +125,8 @@ CHECKS = {
                 technique="TLC enumeration/simulation of FFI.tla call orders + execution through the exported C symbols with snapshot comparison, re-run under valgrind memcheck",
                 text="the call-order quantifier comes from the TLA+ model of the 33 functions over live/freed handles (phonetic and fixed-layout configurations, setter calls): all in-contract orders to depth 6/7 and random 14-call life "
                      "cycles; each is executed through the extern C symbols with string validity / equality / snapshot-independence checks, and a sample of several hundred (thousand) "
-                     "sequences is re-executed under valgrind memcheck, which decides 'no invalid access, no leak'. Claimed as exploration, not model checking: the memory verdict "
-                     "is outside TLA+",
+                     "sequences is re-executed under valgrind memcheck, which decides 'no invalid access, no leak'; a fatal signal in the natively executed sequences (double free abort, wild access) is "
+                     "reported as a violation with the call sequence as replay file. Claimed as exploration, not model checking: the memory verdict is outside TLA+",
                 note="valgrind memcheck is the memory oracle; exported symbols linked from the rlib; in-contract = live handles, in-range indices, variant-appropriate accessors"),
 }
 NOT_APPLICABLE = {}
